@@ -20,8 +20,17 @@ static bool s_is_ipv6_char(uint8_t value) {
     return aws_isxdigit(value) || value == ':';
 }
 
+static bool s_is_ipv4_char(uint8_t value) {
+    return aws_isdigit(value) || value == '.';
+}
+
 bool aws_host_utils_is_ipv4(struct aws_byte_cursor host) {
     if (host.len > AWS_IPV4_STR_LEN - 1) {
+        return false;
+    }
+
+    /* sscanf skips blanks, takes signs and stops at a NUL: none of those belong to a dotted quad */
+    if (!aws_byte_cursor_satisfies_pred(&host, s_is_ipv4_char)) {
         return false;
     }
 
